@@ -23,7 +23,7 @@ typedef boost::tuple<Pomerol::ComplexType, Pomerol::ComplexType, Pomerol::Comple
 typedef std::array<int, 4> Q4;
 uint64_t fnv(const void* p, size_t n, uint64_t h = 1469598103934665603ULL) { const unsigned char* b = (const unsigned char*)p; for (size_t i = 0; i < n; ++i) { h ^= b[i]; h *= 1099511628211ULL; } return h; }
 
-struct Spec { ModelSpec m; int pmode; std::vector<Q4> single; std::vector<Q4> contset; std::vector<ftuple> freqs; std::vector<std::array<long, 3>> grid; bool clear1, clear2, split, usefreqs1, usefreqs2; };
+struct Spec { ModelSpec m; int pmode; std::vector<Q4> single; std::vector<Q4> contset; std::vector<Q4> second; std::vector<ftuple> freqs; std::vector<std::array<long, 3>> grid; bool clear1, clear2, split, usefreqs1, usefreqs2; };
 
 struct Results {
     std::vector<double> evals; std::vector<uint64_t> eighash; double ground = 0;
@@ -33,6 +33,8 @@ struct Results {
     std::map<Q4, std::vector<cd>> ctab;          // container: returned tables
     std::map<Q4, std::vector<cd>> cgrid;         // container: evaluation of every listed element
     std::map<Q4, std::string> cerr;
+    std::map<Q4, std::vector<cd>> cgrid2;        // container after on-demand look-ups + a second bulk computation
+    std::map<Q4, std::string> cerr2;
     long parts = 0, nontrivial_elems = 0;
 };
 
@@ -67,6 +69,17 @@ Results workflow(const Spec& sp, const boost::mpi::communicator& comm) {
             try { for (auto& g : sp.grid) gvals.push_back(it->second(g[0], g[1], g[2])); } catch (const std::exception& e) { err = e.what(); gvals.clear(); }
             R.cgrid[q] = gvals; if (!err.empty()) R.cerr[q] = err;
         }
+        // second phase: elements obtained on demand after the bulk computation are prepared, then a second bulk computation
+        if (!sp.clear2 && !sp.second.empty()) {
+            for (auto& q : sp.second) { Pomerol::TwoParticleGF& e = static_cast<Pomerol::TwoParticleGF&>(C(Pomerol::IndexCombination4((Pomerol::ParticleIndex)q[0], (Pomerol::ParticleIndex)q[1], (Pomerol::ParticleIndex)q[2], (Pomerol::ParticleIndex)q[3]))); if (e.getStatus() < Pomerol::TwoParticleGF::Prepared) e.prepare(); }
+            C.computeAll(false, std::vector<ftuple>(), comm, sp.split);
+            for (auto it = C.ElementsMap.begin(); it != C.ElementsMap.end(); ++it) {
+                Q4 q = {(int)it->first.Index1, (int)it->first.Index2, (int)it->first.Index3, (int)it->first.Index4};
+                std::vector<cd> gvals; std::string err;
+                try { for (auto& g : sp.grid) gvals.push_back(it->second(g[0], g[1], g[2])); } catch (const std::exception& e) { err = e.what(); gvals.clear(); }
+                R.cgrid2[q] = gvals; if (!err.empty()) R.cerr2[q] = err;
+            }
+        }
     }
     return R;
 }
@@ -87,6 +100,7 @@ static void par_run(Ctx& c) {
     int ncomp = (int)r.range(1, 5); std::set<Q4> cs;
     for (int t = 0; t < 40 && (int)cs.size() < ncomp; ++t) { Q4 q = rq(); if (t % 3 == 0) { q[2] = q[1]; q[3] = q[0]; } if (q[0] > q[1]) std::swap(q[0], q[1]); if (q[2] > q[3]) std::swap(q[2], q[3]); cs.insert(q); }
     sp.contset.assign(cs.begin(), cs.end());
+    if (r.coin(0.5)) { for (int t = 0; t < 30 && sp.second.size() < 2; ++t) { Q4 q = rq(); if (!cs.count(q)) sp.second.push_back(q); } }
     for (long a = -1; a <= 1; ++a) for (long b = -1; b <= 1; ++b) for (long d = -1; d <= 1; ++d) sp.grid.push_back({a, b, d});
     long nf = r.coin(0.3) ? 200 : (long)r.range(1, 30);
     for (long t = 0; t < nf; ++t) { long n1 = r.range(-6, 6), n2 = r.range(-6, 6), n3 = r.range(-6, 6); auto w = [&](long n) { return cd(0, (2 * n + 1) * M_PI / beta); }; sp.freqs.push_back(boost::make_tuple(w(n1), w(n2), w(n3))); }
@@ -98,6 +112,7 @@ static void par_run(Ctx& c) {
     J desc = sp.m.describe(); desc.set("partition", pm_name(sp.pmode)).set("P", P).set("threads", threads).set("clear_single", sp.clear1).set("clear_container", sp.clear2).set("split", sp.split)
         .set("freqs_single", sp.usefreqs1 ? (long)sp.freqs.size() : 0L).set("freqs_container", sp.usefreqs2 ? (long)sp.freqs.size() : 0L);
     { J a = J::arr(); for (auto& q : sp.contset) a.push(qs(q)); desc.set("container_components", a); }
+    { J a = J::arr(); for (auto& q : sp.second) a.push(qs(q)); desc.set("on_demand_then_second_bulk", a); }
     c.model = desc; c.canon = desc.str();
 
 #ifdef POMEROL_VERIF
@@ -122,6 +137,7 @@ static void par_run(Ctx& c) {
     for (auto& t : ref.tab1) for (auto& v : t) S = std::max(S, std::abs(v));
     for (auto& t : ref.grid1) for (auto& v : t) S = std::max(S, std::abs(v));
     for (auto& kv : ref.cgrid) for (auto& v : kv.second) S = std::max(S, std::abs(v));
+    for (auto& kv : ref.cgrid2) for (auto& v : kv.second) S = std::max(S, std::abs(v));
     const double tol = 1e-9 * S;
     std::string pk = "P" + std::string(P == 1 ? "=1" : ">1");
     // spectrum
@@ -157,6 +173,12 @@ static void par_run(Ctx& c) {
 #ifdef POMEROL_VERIF
     pMPI::verif::event("h_case_done", c.k, 100 + (sp.split ? 1 : 0));
 #endif
+    for (auto& kv : ref.cgrid2) { ++nchk;
+        if (ref.cerr2.count(kv.first)) continue;
+        auto it = par.cgrid2.find(kv.first);
+        if (it == par.cgrid2.end()) { bad("C06:container:second-bulk:element-missing:" + ck, cq + ": element " + qs(kv.first) + " not listed on this rank after on-demand look-ups and a second computeAll"); continue; }
+        if (par.cerr2.count(kv.first)) { bad("C06:container:second-bulk:element-not-evaluable:" + ck + ":" + pk, cq + ": after on-demand look-ups + second computeAll element " + qs(kv.first) + " throws on this rank: " + par.cerr2[kv.first]); continue; }
+        for (size_t w = 0; w < kv.second.size() && w < it->second.size(); ++w) if (!(std::abs(it->second[w] - kv.second[w]) <= tol)) { bad("C06:container:second-bulk:terms-vs-single-rank:" + ck + ":" + pk, cq + ": after on-demand look-ups + second computeAll " + qs(kv.first) + " grid point " + std::to_string(w) + ": " + fmt(it->second[w]) + " vs " + fmt(kv.second[w])); break; } }
     // ---- gather on rank 0: violations, counts, eigen-data hashes
     std::vector<std::vector<std::string>> allv; std::vector<std::vector<uint64_t>> allh; std::vector<long> alln;
     boost::mpi::gather(world, viol, allv, 0); boost::mpi::gather(world, par.eighash, allh, 0); boost::mpi::gather(world, nchk, alln, 0);
